@@ -131,6 +131,7 @@ func typeFamily() []*T {
 	ts := []*T{any, unit, tN("Undef"), tN("Default"), tN("Numeric"), tN("Scalar"), tN("ScalarData"), tN("Binary"),
 		tBool(-1), tBool(0), tBool(1),
 		integer, tInt(0, maxI), tInt(1, 5), tInt(1, maxI), tInt(minI, 5), tInt(5, 5), tInt(0, 0), tInt(1, 1), tInt(3, 4), tInt(5, maxI), tInt(1, 6),
+		tFloat(math.Inf(-1), math.Inf(1)), tFloat(math.Inf(-1), 1), tFloat(1, math.Inf(1)), tFloat(math.Inf(1), math.Inf(1)), // Float[-Inf, +Inf] is the unbounded (default) Float type
 		tFloat(-mf, mf), tFloat(0, 1), tFloat(math.Copysign(0, -1), 1), tFloat(-mf, 1), tFloat(1, mf), tFloat(1, 5), tFloat(1, 1), tFloat(nan, 1), tFloat(1, nan), tFloat(-1, 0), tFloat(-1, math.Copysign(0, -1)),
 		str, tStrSz(1, maxI), tStrSz(1, 5), tStrSz(0, 5), tStrSz(5, 5), tStrSz(minI, 5), tStrVal("a"), tStrVal("abc"), tStrVal(""), tStrVal("\x01i\x00\x00\x00\x00\x00\x00\x00\x05"),
 		tEnum(false), tEnum(false, "a"), tEnum(false, "a", "b"), tEnum(false, "b", "a"), tEnum(false, "a", "a"), tEnum(false, "a", "a", "b"),
